@@ -119,9 +119,7 @@ Definition opt_seconds (s : str) : option (N * N * str) :=
       else None
   | _ => None
   end.
-Definition dur_decode (t : str) : option Z :=
-  let '(neg, t1) := match t with c :: r => if (c =? c_minus)%N then (true, r) else (false, t) | [] => (false, t) end in
-  let sg := if neg then (-1)%Z else 1%Z in
+Definition dur_body (sg : Z) (t1 : str) : option Z :=
   match t1 with
   | c :: t2 =>
     if negb (c =? c_P)%N then None else
@@ -140,6 +138,11 @@ Definition dur_decode (t : str) : option Z :=
              end
       end
     end
+  | [] => None
+  end.
+Definition dur_decode (t : str) : option Z :=
+  match t with
+  | c :: r => if (c =? c_minus)%N then dur_body (-1) r else dur_body 1 t
   | [] => None
   end.
 
@@ -205,6 +208,10 @@ Definition xsd_dur (t : str) (v : Z) : Prop :=
         (if time then c_T :: comp c_H h ++ comp c_M m ++ sec_comp s else []) /\
     v = ((if neg then -1 else 1) *
          Z.of_N ((comp_val d * 86400 + comp_val h * 3600 + comp_val m * 60) * 1000000 + sec_us s))%Z.
+
+(* the boolean form used by the correspondence: by CodecDurproof.dur_lexical_iff it is true exactly on the strings t for which
+   some v has [xsd_dur t v] *)
+Definition dur_lexical (t : str) : bool := is_some (dur_decode t).
 
 (* ------------------------------------------------------------------ Date / DateTime
    datetime record; tz = None (naive) or Some offset in seconds, |offset| < 86400 (whole-second offsets) *)
@@ -368,38 +375,6 @@ Definition datetime_lexical (t : str) : bool :=
     end
   | None => false
   end.
-(* duration lexical form as a matcher: -?P(\d+D)?(T(\d+H)?(\d+M)?(\d+(\.\d+)?S)?)? , not ending in P or T *)
-Definition skip_comp (c : N) (s : str) : str * bool :=
-  let '(d, r) := read_digits s in
-  match d, r with _ :: _, x :: r' => if (x =? c)%N then (r', true) else (s, false) | _, _ => (s, false) end.
-Definition skip_sec (s : str) : str * bool :=
-  let '(d, r) := read_digits s in
-  match d, r with
-  | _ :: _, x :: r' =>
-    if (x =? c_S)%N then (r', true)
-    else if (x =? c_dot)%N then
-      let '(f, r2) := read_digits r' in
-      match f, r2 with _ :: _, y :: r3 => if (y =? c_S)%N then (r3, true) else (s, false) | _, _ => (s, false) end
-    else (s, false)
-  | _, _ => (s, false)
-  end.
-Definition dur_lexical (t : str) : bool :=
-  let t1 := match t with c :: r => if (c =? c_minus)%N then r else t | [] => t end in
-  match t1 with
-  | c :: t2 =>
-    (c =? c_P)%N &&
-    let '(t3, hd) := skip_comp c_D t2 in
-    match t3 with
-    | [] => hd
-    | x :: t4 => (x =? c_T)%N &&
-                 let '(t5, h1) := skip_comp c_H t4 in
-                 let '(t6, h2) := skip_comp c_M t5 in
-                 let '(t7, h3) := skip_sec t6 in
-                 (h1 || h2 || h3) && match t7 with [] => true | _ => false end
-    end
-  | [] => false
-  end.
-
 (* ------------------------------------------------------------------ colours *)
 Definition hex_digit (n : N) : N := if (n <? 10)%N then (48 + n)%N else (55 + n)%N.     (* "%X" : upper case *)
 Definition hex2 (n : N) : str := [hex_digit (n / 16); hex_digit (n mod 16)].            (* "%02X" for n < 256 *)
